@@ -7,7 +7,12 @@ unchanged under layout-preserving re-embedding (partial, enumerative claim; evid
   reported, Prefer must not; oracle = the docs' own labelling.
 * correspondence with Model/Layout.v: the Go harness re-embeds the *text*; the model re-embeds the *line table*. Coq
   checks (vm_compute) that the text is the rendering of the model's line table, that the reported rows are the identity
-  run's rows moved through the model's index map, and that reported line texts are the model's lines (no trailing CR)."""
+  run's rows moved through the model's index map, and that reported line texts are the model's lines (no trailing CR).
+* boundary shifts (Model/Layout.v boundary_shifts, Props/C08.v c08_boundary_shifts_cover): code that compares or orders
+  rows as text goes wrong only where row numbers get one more digit, so on top of the embeddings of the tier every
+  example is linted with k blank lines at the top for every k = t - r, r a row of the example, t in 9, 99 (, 999):
+  every pair of rows is put on the two sides of 9|10 and of 99|100 by some embedding.  Coq recomputes the selection
+  from the model for every example text (shifts_cover, rows_reach) and checks each shifted text by digest."""
 import importlib.util, json, os, re
 import vlib
 from vlib import cstr, clist
@@ -130,30 +135,89 @@ def locs(vs):
     return clist('(%d, %d, %d, %d)' % (v['row'], v['col'], v['erow'], v['ecol']) for v in vs)
 
 
-def coq_check(ctx, items, name='Cases_C08'):
-    """items: [(case, file_index, emb, got_text, id_viols, emb_viols)] -> (bad_text, bad_rows, bad_texts) index lists"""
+def chunked(v, name, typ, rows, n=400):
+    """long list literals overflow Coq's stack: define them in pieces"""
+    parts = []
+    for k in range(0, len(rows), n):
+        parts.append('%s_%d' % (name, k // n))
+        v.append('Definition %s : list %s := %s.' % (parts[-1], typ, clist(rows[k:k + n])))
+    v.append('Definition %s : list %s := %s.' % (name, typ, ' ++ '.join(parts + ['[]'])))
+
+
+def coq_check(ctx, items, digs=(), covers=(), name='Cases_C08'):
+    """items:  [(case, file_index, emb, got_text, id_viols, emb_viols)]
+       digs:   [(case, file_index, emb, {'len','hash'}, id_viols, emb_viols)]   (boundary shifts: text by digest)
+       covers: [(case, file_index, nonblank_only, targets, shifts_used)]
+    -> index lists of the failing cases: text_agrees, rows_agree, texts_agree over items; dig_text_agrees,
+       dig_rows_agree, dig_texts_agree over digs; shifts_cover, rows_reach over covers"""
     v = ['From Regal Require Import Check.C08Check.', 'Open Scope N_scope.']
-    defined = {}
-    rows = []
-    for (c, fi, emb, got, idv, embv) in items:
+    defined, interned = {}, {}
+
+    def orig(c, fi):
         k = (c['id'], fi)
         if k not in defined:
             defined[k] = 't_%d_%d' % k
             v.append('Definition %s : str := %s.' % (defined[k], cstr(c['files'][fi]['text'])))
+        return defined[k]
+
+    def intern(prefix, typ, term):
+        if len(term) < 12:
+            return term
+        if (prefix, term) not in interned:
+            interned[(prefix, term)] = '%s_%d' % (prefix, len(interned))
+            v.append('Definition %s : %s := %s.' % (interned[(prefix, term)], typ, term))
+        return interned[(prefix, term)]
+
+    def texts_of(embv):
+        return clist('(%d, %s)' % (x['row'], intern('x', 'str', cstr(x['text']))) for x in embv if x['has_text'] and x['row'] > 0)
+    rows = []
+    for (c, fi, emb, got, idv, embv) in items:
         rows.append('{| e_orig := %s; e_ops := %s; e_got := %s; e_id := %s; e_emb := %s; e_texts := %s |}' % (
-            defined[k], coq_ops(emb), cstr(got), locs(idv), locs(embv),
-            clist('(%d, %s)' % (x['row'], cstr(x['text'])) for x in embv if x['has_text'] and x['row'] > 0)))
-    v.append('Definition cases : list emb_case := ' + clist(rows) + '.')
+            orig(c, fi), coq_ops(emb), cstr(got), locs(idv), locs(embv), texts_of(embv)))
+    drows = []
+    for (c, fi, emb, dg, idv, embv) in digs:
+        drows.append('{| d_orig := %s; d_ops := %s; d_len := %d; d_hash := %d; d_id := %s; d_emb := %s; d_texts := %s |}' % (
+            orig(c, fi), coq_ops(emb), dg['len'], dg['hash'], intern('L', 'list loc', locs(idv)), locs(embv), texts_of(embv)))
+    crows = []
+    for (c, fi, nonblank, targets, used) in covers:
+        crows.append('{| c_text := %s; c_nonblank := %s; c_targets := %s; c_used := %s |}' % (
+            orig(c, fi), vlib.cbool(nonblank), clist('%d%%nat' % t for t in targets), clist('%d%%nat' % k for k in used)))
+    chunked(v, 'cases', 'emb_case', rows)
+    chunked(v, 'dcases', 'dig_case', drows)
+    chunked(v, 'ccases', 'cover_case', crows)
     v.append('Definition R1 := Eval vm_compute in failing text_agrees 0 cases.')
     v.append('Definition R2 := Eval vm_compute in failing rows_agree 0 cases.')
     v.append('Definition R3 := Eval vm_compute in failing texts_agree 0 cases.')
-    v.append('Print R1. Print R2. Print R3.')
+    v.append('Definition R5 := Eval vm_compute in failing dig_text_agrees 0 dcases.')
+    v.append('Definition R6 := Eval vm_compute in failing dig_rows_agree 0 dcases.')
+    v.append('Definition R7 := Eval vm_compute in failing dig_texts_agree 0 dcases.')
+    v.append('Definition R8 := Eval vm_compute in failing shifts_cover 0 ccases.')
+    v.append('Definition R9 := Eval vm_compute in failing rows_reach 0 ccases.')
+    marks = ['R1', 'R2', 'R3', 'R5', 'R6', 'R7', 'R8', 'R9']
+    # self-test of the glue: a wrong digest, and a selection that lacks one shift, must be flagged
+    if drows:
+        c, fi, emb, dg, idv, embv = digs[0]
+        v.append('Definition S1 := Eval vm_compute in failing dig_text_agrees 0 [{| d_orig := %s; d_ops := %s; d_len := %d; '
+                 'd_hash := %d; d_id := []; d_emb := []; d_texts := [] |}].' % (orig(c, fi), coq_ops(emb), dg['len'], dg['hash'] ^ 1))
+        marks.append('S1')
+    pert = [x for x in covers if x[4]]
+    if pert:
+        c, fi, nonblank, targets, used = pert[0]
+        v.append('Definition S2 := Eval vm_compute in failing (fun c => shifts_cover c && rows_reach c) 0 [{| c_text := %s; '
+                 'c_nonblank := %s; c_targets := %s; c_used := %s |}].' % (
+                     orig(c, fi), vlib.cbool(nonblank), clist('%d%%nat' % t for t in targets), clist('%d%%nat' % k for k in used[1:])))
+        marks.append('S2')
+    v.append(' '.join('Print %s.' % m for m in marks))
     rc, out = vlib.coq_eval(ctx, name, '\n'.join(v), timeout=1500)
     if rc != 0:
         raise RuntimeError('case evaluation failed:\n' + out[-3000:])
-    r = [vlib.parse_nat_list(out, m) for m in ('R1', 'R2', 'R3')]
-    if any(x is None for x in r):
+    r = {m: vlib.parse_nat_list(out, m) for m in marks}
+    if any(x is None for x in r.values()):
         raise RuntimeError('cannot parse Coq output:\n' + out[-2000:])
+    for m in ('S1', 'S2'):
+        if m in r and r[m] != [0]:
+            raise RuntimeError('self-test failed: a perturbed %s was not flagged by Check.C08Check' %
+                               ('digest' if m == 'S1' else 'shift selection'))
     return r
 
 
@@ -226,10 +290,25 @@ def case_key(c):
 
 
 def run(ctx):
+    import time
+    phases, t_last = {'coq_build_and_props': round(time.time() - ctx.t0, 1)}, [time.time()]
+
+    def phase(name):
+        phases[name] = round(time.time() - t_last[0], 1)
+        t_last[0] = time.time()
     gen = _gen()
     table = gen.build_table(vlib.REPO)
     cases, problems = build_cases(table)
+    # boundary shifts: which target rows, and whether blank rows of the example are put there too.  Examples that can
+    # share a lint call get every row on rows 9 and 99 (999 in the thorough tier); the others (a lint call per
+    # embedding) every non-blank row on row 9 in the quick tier, every row on rows 9 and 99 in the thorough tier
+    for c in cases:
+        if c['batch']:
+            c['shift_targets'], c['shift_rows'] = ([9, 99] if ctx.quick() else [9, 99, 999]), 'all'
+        else:
+            c['shift_targets'], c['shift_rows'] = ([9], 'nonblank') if ctx.quick() else ([9, 99], 'all')
     h = vlib.build_harness(ctx, 'c08')
+    phase('harness_build')
     mode = ctx.tier
     rp = None
     if ctx.replay:
@@ -262,6 +341,7 @@ def run(ctx):
         th = threading.Thread(target=_lt)
         th.start()
     results = run_harness(ctx, h, cases, mode, 'main')
+    phase('harness_run')
     results.sort(key=lambda r: (r['id'], len(r['emb']), r['emb'], r['mode']))
 
     for p in problems[:3]:
@@ -321,8 +401,11 @@ def run(ctx):
 
     # ---- correspondence with the layout model --------------------------------------------------------------
     items, meta = [], []
+    digs, dmeta, covers, cmeta = [], [], [], []
     keys = sorted(by)
-    base = [k for k in keys if len(k[1]) <= 1]
+    shifted = [k for k in keys if any(r.get('shift') for r in by[k].values())]
+    sh = set(shifted)
+    base = [k for k in keys if len(k[1]) <= 1 and k not in sh]
     comp = [k for k in keys if len(k[1]) > 1]
     if len(comp) > 1500:
         comp = sorted(ctx.rng.shuffle(comp)[:1500])
@@ -340,9 +423,39 @@ def run(ctx):
             embv = [x for x in mine(c, r) if x['file'] == f['name']]
             items.append((c, fi, list(emb), r['texts'][f['name']], idv, embv))
             meta.append((cid, list(emb), fi, dup_of))
+    for cid, emb in shifted:
+        c = cases[cid]
+        ident = primary(cid, ())
+        r = primary(cid, emb)
+        if ident is None or r is None or ident['error'] or r['error'] or 'digests' not in r:
+            continue
+        for fi, f in enumerate(c['files']):
+            idv = [x for x in mine(c, ident) if x['file'] == f['name']]
+            embv = [x for x in mine(c, r) if x['file'] == f['name']]
+            digs.append((c, fi, list(emb), r['digests'][f['name']], idv, embv))
+            dmeta.append((cid, list(emb), fi, None))
+    for c in cases:
+        ident = primary(c['id'], ())
+        if mode == 'replay' or ident is None or any(x in c['embed'] for x in ('none', 'noblank', 'notop')):
+            continue
+        for fi, f in enumerate(c['files']):
+            # the harness selects per case (all its files shift together): the union must cover each file
+            covers.append((c, fi, c['shift_rows'] == 'nonblank', c['shift_targets'], ident.get('shifts_used') or []))
+            cmeta.append((c['id'], fi))
     r1 = r2 = r3 = []
-    if items:
-        r1, r2, r3 = coq_check(ctx, items)
+    rr = {}
+    if items or digs or covers:
+        phase('verdicts')
+        rr = coq_check(ctx, items, digs, covers)
+        phase('coq_eval')
+        r1, r2, r3 = rr['R1'], rr['R2'], rr['R3']
+    # rows / location texts: the full-text cases and the boundary shifts together
+    all_meta = meta + dmeta
+    all_items = items + digs
+    r2 = r2 + [len(items) + i for i in rr.get('R6', [])]
+    r3 = r3 + [len(items) + i for i in rr.get('R7', [])]
+    meta_full, items_full = meta, items
+    meta, items = all_meta, all_items
     seen_rules = set()
     for i in r2:
         cid, emb, fi, dup_of = meta[i]
@@ -377,13 +490,23 @@ def run(ctx):
                        signature={'kind': 'location-text-not-a-line', 'key': c['category'] + '/' + c['rule']})
         if len(ctx.violations) >= 5:
             break
-    if r1 and not ctx.violations:
-        cid, emb, fi, dup_of = meta[r1[0]]
-        vlib.violation(ctx, {'kind': 'correspondence', 'relation': 'Check.C08Check.text_agrees (Model/Layout.v apply_ops/render '
-                             'vs the text transformations of harness/cmd/c08)', 'case': cases[cid], 'emb': emb,
-                             'dup_of': dup_of, 'n_mismatches': len(r1)}, no_input=True)
+    r5 = rr.get('R5', [])
+    if (r1 or r5) and not ctx.violations:
+        cid, emb, fi, dup_of = meta[r1[0]] if r1 else dmeta[r5[0]]
+        vlib.violation(ctx, {'kind': 'correspondence', 'relation': 'Check.C08Check.text_agrees / dig_text_agrees (Model/Layout.v '
+                             'apply_ops/render vs the text transformations of harness/cmd/c08)', 'case': cases[cid], 'emb': emb,
+                             'dup_of': dup_of, 'n_mismatches': len(r1) + len(r5)}, no_input=True)
+    r8, r9 = rr.get('R8', []), rr.get('R9', [])
+    if (r8 or r9) and not ctx.violations:
+        cid, fi = cmeta[(r8 or r9)[0]]
+        vlib.violation(ctx, {'kind': 'correspondence', 'relation': 'Check.C08Check.shifts_cover / rows_reach: the shift amounts the '
+                             'harness used for this example are not (a superset of) Model/Layout.v boundary_shifts, or a row of '
+                             'the example is not put on a target row (Props/C08.v c08_boundary_shifts_cover)', 'case': cases[cid],
+                             'file': cases[cid]['files'][fi]['name'], 'shifts_used': covers[(r8 or r9)[0]][4],
+                             'targets': cases[cid]['shift_targets'], 'n_mismatches': len(r8) + len(r9)}, no_input=True)
     if th is not None:
         th.join()
+        phase('wait_for_line_table_tie')
         if 'exc' in lt:
             raise lt['exc']
         for i in lt['bad'][:1]:
@@ -398,7 +521,18 @@ def run(ctx):
     # ---- evidence ------------------------------------------------------------------------------------------
     import collections
     lints = [r for r in results if r['mode'] != 'dup']
-    distinct = {(cases[r['id']]['rule'], cases[r['id']]['label'], json.dumps(r.get('texts'), sort_keys=True)) for r in lints}
+    distinct = {(cases[r['id']]['rule'], cases[r['id']]['label'], json.dumps(r.get('texts') or r.get('digests'), sort_keys=True))
+                for r in lints}
+    shift_res = [r for r in lints if r.get('shift')]
+
+    def crossing(t):
+        """(example, row) pairs put on row t by some embedding that was linted"""
+        n = 0
+        for c in cases:
+            ks = {int(e[0][1:]) for (cid, e) in by if cid == c['id'] and len(e) == 1 and e[0][0] == 'T'} | {0}
+            rows = max(len(f['text'].replace('\r\n', '\n').split('\n')) for f in c['files'])
+            n += sum(1 for r in range(1, rows + 1) if t - r in ks)
+        return n
     kinds = collections.Counter(r['kind'] for r in table['rows'])
     reasons = collections.Counter(r['reason'] for r in table['rows'] if r['reason'] != 'RNone')
     notices = collections.Counter(n for r in lints if not r['emb'] for n in r['notices'])
@@ -426,13 +560,20 @@ def run(ctx):
         'results_from_batched_calls': sum(1 for r in lints if r['mode'] == 'batch'),
         'identity_notices': dict(notices),
         'line_table_texts_compared': len(lt.get('pairs', [])), 'mismatch_line_table': len(lt.get('bad', [])),
-        'coq_cases': len(items), 'mismatch_text_model': len(r1), 'mismatch_rows': len(r2), 'mismatch_location_text': len(r3),
+        'coq_cases': len(items), 'coq_cases_full_text': len(items_full), 'coq_cases_by_digest': len(digs),
+        'mismatch_text_model': len(r1) + len(r5), 'mismatch_rows': len(r2), 'mismatch_location_text': len(r3),
+        'boundary_shift_results': len(shift_res),
+        'boundary_shift_targets': dict(collections.Counter(str(c['shift_targets']) + '/' + c['shift_rows'] for c in cases)),
+        'rows_put_on_row_9': crossing(9), 'rows_put_on_row_99': crossing(99), 'rows_put_on_row_999': crossing(999),
+        'shift_selection_cases': len(covers), 'mismatch_shift_selection': len(r8) + len(r9),
         'verdict_failures': sum(len(v) for v in bad.values()), 'batch_vs_single_mismatches': len(batch_mismatch),
-        'table_problems': problems[:10],
+        'table_problems': problems[:10], 'phase_seconds': phases,
         'samples': sample,
         'exhaustive': 'over the docs table x the grammar up to the depth of the tier (quick: identity + 3 single '
                       'transformations; thorough: all compositions up to depth 3 over {P1,P3,P10,T1,C,A}, depth 2 for '
-                      'scenarios that cannot share a lint call: several files / aggregate / path-dependent); not over policies',
+                      'scenarios that cannot share a lint call: several files / aggregate / path-dependent) + the boundary '
+                      'shifts T<t - r> of every row r of every example for t = 9, 99 (, 999) (Model/Layout.v boundary_shifts; '
+                      'quick tier, examples that need a lint call per embedding: non-blank rows, t = 9); not over policies',
     })
     return vlib.finish(ctx, 'other', cov, [
         'the oracle is the docs\' own Avoid/Prefer labelling; fixtures under corpus/C08 supply what a page does not show '
